@@ -13,6 +13,7 @@ import io
 import random
 
 from asynciojobs import PureScheduler
+import asyncio
 from . import vloop
 
 BODY_END = ('exit-ret', 'exit-raise', 'cancel-done', 'run-cancelled')
@@ -645,7 +646,7 @@ def o_c14(v):
 
 
 ORACLES = {'C01': o_c01, 'C02': o_c02, 'C03': o_c03, 'C04': o_c04, 'C05': o_c05, 'C07': o_c07,
-           'C08': o_c08, 'C09': o_c09, 'C11': o_c11, 'C12': o_c12, 'C13': o_c13, 'C14': o_c14}
+           'C08': o_c08, 'C09': o_c09, 'C10': lambda v: o_c10_single(v), 'C11': o_c11, 'C12': o_c12, 'C13': o_c13, 'C14': o_c14}
 
 
 def run_oracle(prop, spec, external_cancel_at=None):
@@ -653,8 +654,56 @@ def run_oracle(prop, spec, external_cancel_at=None):
     b, r = execute(spec, external_cancel_at=external_cancel_at, sample=sample)
     v = View(b, r)
     if prop != 'C03' and r.hang:
-        return None         # wedged runs are C03's business
+        # wedged runs are C03's business, except where the statement itself says the run ends
+        if prop in ('C05', 'C08', 'C09', 'C11'):
+            for S in v.scheds():
+                sp = b.spec[S]
+                began = v.first(S, 'enter')
+                if prop == 'C08' and sp.get('timeout') is not None and began and run_end_event(v, S) is None \
+                        and b.loop.time() > began[1] + sp['timeout']:
+                    return 'scheduler %s (timeout %s, begun at %s) never ends: the run is wedged at %s (%s)' % (
+                        S, sp['timeout'], began[1], b.loop.time(), r.hang)
+                if prop != 'C08' and began and run_end_event(v, S) is None and v.all(S, 'shutdown') == [] and any(
+                        v.first(m, 'cancelled') for m in b.members[S]):
+                    return 'scheduler %s cancelled its jobs but never ends: the run is wedged (%s)' % (S, r.hang)
+        return None
     return ORACLES[prop](v)
+
+
+def o_c10_single(v):
+    """one run: a nested scheduler is one job of its parent; a failed nested run is contained by a
+    non-critical scheduler (False is its result) and goes through a critical one with the same
+    exception object (the verdict/exception rules are those of C04, applied at every level)"""
+    err = o_c04(v)
+    if err:
+        return err
+    for S in v.scheds():
+        if S not in v.b.parent:
+            continue
+        obj = v.b.objs[S]
+        sp = v.b.spec[S]
+        end = run_end_event(v, S)
+        if end is None:
+            continue
+        if end[2] == 'exit-ret':
+            try:
+                seen = obj.result()
+            except Exception as exc:
+                return 'result() of nested %s whose run returned %r raises %r' % (S, end[4].get('result'), exc)
+            if seen is not end[4].get('result'):
+                return 'parent reads %r as the result of nested %s whose run returned %r' % (seen, S, end[4].get('result'))
+            if obj.raised_exception() is not None:
+                return 'nested %s returned but raised_exception() is %r' % (S, obj.raised_exception())
+        if end[2] == 'exit-raise':
+            if not sp.get('critical'):
+                return 'non-critical nested %s let %r out of its run' % (S, end[4].get('exc'))
+            if obj.raised_exception() is not end[4].get('exc'):
+                return 'nested %s raised %r but its parent sees %r' % (S, end[4].get('exc'), obj.raised_exception())
+    if v.r.exc is not None and not isinstance(v.r.exc, asyncio.CancelledError):
+        chain = [e for e in v.ev if e[2] == 'exit-raise' and e[4].get('exc') is v.r.exc]
+        if not chain and not isinstance(v.r.exc, TimeoutError):
+            return 'the exception %r out of the top-level run is not the object any job or scheduler raised' % (v.r.exc,)
+    return None
 
 
 # ---- relational properties: C06 (non-critical failure is invisible), C10 (nesting is transparent)
@@ -765,6 +814,21 @@ def gen_c10(rng):
     t = tree(0, 'm')
     t['name'] = 'top'
     return t
+
+
+def gen_chain(rng):
+    """trees up to depth 3 with many failing jobs and every mix of critical flags along the chains"""
+    sp = gen_tree(rng, maxdepth=3, windows=rng.random() < 0.3, timeouts=rng.random() < 0.3, nmax=3)
+    for x in all_specs(sp):
+        if x['type'] == 'job':
+            if rng.random() < 0.3:
+                x['outcome'] = 'raise'
+            x['forever'] = False
+            if x['duration'] is None:
+                x['duration'] = 3
+        else:
+            x['critical'] = rng.random() < 0.6
+    return sp
 
 
 def o_c10(spec):
